@@ -389,6 +389,16 @@ func (ev *Eval) eq(a, b TV) *smt.Term {
 		if x.S != y.S {
 			fail("sort mismatch in ==: %s vs %s", x.S, y.S)
 		}
+		if x.S.K == smt.KArray {
+			// extensional equality, stated at a fresh index: as a goal this
+			// is equivalent to array equality (the index is universally
+			// quantified); as a hypothesis it is weaker, hence sound.
+			if x == y {
+				return smt.True
+			}
+			k := ev.P.Fresh("sk", x.S.Idx)
+			return smt.Eq(smt.Select(x, k), smt.Select(y, k))
+		}
 		return smt.Eq(x, y)
 	}
 	return ev.P.EqVal(a.V, b.V)
